@@ -31,6 +31,7 @@ LABELS = ["YEAR", "MONTH", "DAY", "HOUR", "MINUTE", "SECOND", "MICROSECOND"]
 UNITS = ["years", "months", "days", "hours", "minutes", "seconds", "microseconds"]
 SEPS = ["-", "-", " ", ":", ":", "."]  # separator between field i and i+1
 FORM_A = {"MySQLQuery", "OracleQuery"}  # INTERVAL 'expr' UNIT
+CTOR_DIALECTS = ["MYSQL", "POSTGRESQL", "ORACLE", "SQLITE", "MSSQL"]
 
 
 def cases(tier, seed, shard, nshards):
@@ -42,10 +43,18 @@ def cases(tier, seed, shard, nshards):
         yield {"k": "ymd", "v": list(tup), "neg": False}
         if any(tup):
             yield {"k": "ymd", "v": list(tup), "neg": True}
+        # the same durations through the other ways of calling the constructor: positional arguments (in the documented order
+        # years, months, days, hours, minutes, seconds, microseconds, quarters, weeks) and the dialect= argument, which must not
+        # take precedence over the dialect the literal is rendered for
+        if n % 11 == 0:
+            yield {"k": "ymd", "v": list(tup), "neg": n % 22 == 0 and any(tup), "ctor": "pos"}
+        if n % 13 == 0:
+            yield {"k": "ymd", "v": list(tup), "neg": n % 26 == 0 and any(tup), "ctor": "dialect:%s" % CTOR_DIALECTS[(n // 13) % len(CTOR_DIALECTS)]}
     if shard == 0:
         for v in [1, 5, 10, 100, 1005, -1, -10, -1005]:
-            yield {"k": "quarters", "q": v}
-            yield {"k": "weeks", "q": v}
+            for ctor in [None, "pos"] + ["dialect:%s" % x for x in CTOR_DIALECTS]:
+                yield {"k": "quarters", "q": v, "ctor": ctor}
+                yield {"k": "weeks", "q": v, "ctor": ctor}
     rnd = random.Random("C18:%d:%d" % (seed, shard))
     count = (4000 if tier == "quick" else 200000) // nshards
     for _ in range(count):
@@ -58,7 +67,8 @@ def cases(tier, seed, shard, nshards):
                 tup.append(rnd.choice([10, 20, 100, 1000, 10 ** rnd.randint(1, 9), 101, 1001, 110]))
             else:
                 tup.append(rnd.randint(1, 10 ** rnd.randint(1, 7)))
-        yield {"k": "ymd", "v": tup, "neg": rnd.random() < 0.3 and any(tup)}
+        yield {"k": "ymd", "v": tup, "neg": rnd.random() < 0.3 and any(tup),
+               "ctor": rnd.choice([None, None, "pos", "dialect:%s" % rnd.choice(CTOR_DIALECTS)])}
         if rnd.random() < 0.05:
             yield {"k": rnd.choice(["quarters", "weeks"]), "q": rnd.choice([-1, 1]) * rnd.randint(1, 10 ** 6)}
 
@@ -103,17 +113,23 @@ def parse_expr(expr, nfields, lo):
 
 def build(case):
     reg = registry()
-    if case["k"] == "quarters":
-        return reg["Interval"](quarters=case["q"])
-    if case["k"] == "weeks":
-        return reg["Interval"](weeks=case["q"])
+    ctor = case.get("ctor") or "kw"
+    extra = {}
+    if ctor.startswith("dialect:"):
+        extra["dialect"] = reg["Dialects"][ctor.split(":")[1]]
+    if case["k"] in ("quarters", "weeks"):
+        if ctor == "pos":
+            return reg["Interval"](0, 0, 0, 0, 0, 0, 0, *([case["q"]] if case["k"] == "quarters" else [0, case["q"]]))
+        return reg["Interval"](**{case["k"]: case["q"]}, **extra)
     v = list(case["v"])
     if case["neg"]:
         for i, x in enumerate(v):
             if x:
                 v[i] = -x
                 break
-    return reg["Interval"](**dict(zip(UNITS, v)))
+    if ctor == "pos":
+        return reg["Interval"](*v)
+    return reg["Interval"](**dict(zip(UNITS, v)), **extra)
 
 
 def key_of(case, fault, unit):
